@@ -249,11 +249,14 @@ def _binary_encode_double(col: ResultColumn, val: Any) -> bytes:
 
 
 def _binary_encode_timedelta(col: ResultColumn, val: Any) -> bytes:
-    days = abs(val.days)
-    hours, remainder = divmod(abs(val.seconds), 3600)
+    is_negative = val < timedelta(0)
+    # timedelta normalizes negative values to negative days plus positive seconds,
+    # so take the magnitude first and send the sign separately
+    val = abs(val)
+    days = val.days
+    hours, remainder = divmod(val.seconds, 3600)
     minutes, seconds = divmod(remainder, 60)
     microseconds = val.microseconds
-    is_negative = val.total_seconds() < 0
 
     if microseconds == 0:
         if days == hours == minutes == seconds == 0:
@@ -289,6 +292,22 @@ def _text_encode_str(col: ResultColumn, val: Any) -> bytes:
         val = val.encode(col.character_set.codec)
 
     return val
+
+
+def _text_encode_time(col: ResultColumn, val: Any) -> bytes:
+    if not isinstance(val, timedelta):
+        return _text_encode_str(col, val)
+
+    # MySQL TIME text format: [-]HH:MM:SS[.ffffff], hours are not limited to 24
+    sign = "-" if val < timedelta(0) else ""
+    val = abs(val)
+    minutes, seconds = divmod(val.seconds, 60)
+    hours, minutes = divmod(minutes, 60)
+    hours += val.days * 24
+    text = f"{sign}{hours:02d}:{minutes:02d}:{seconds:02d}"
+    if val.microseconds:
+        text += f".{val.microseconds:06d}"
+    return _text_encode_str(col, text)
 
 
 def _text_encode_tiny(col: ResultColumn, val: Any) -> bytes:
@@ -330,7 +349,7 @@ _TEXT_ENCODERS: Dict[ColumnType, Encoder] = {
     ColumnType.LONGLONG: _text_encode_str,
     ColumnType.INT24: _text_encode_str,
     ColumnType.DATE: _text_encode_str,
-    ColumnType.TIME: _text_encode_str,
+    ColumnType.TIME: _text_encode_time,
     ColumnType.DATETIME: _text_encode_str,
     ColumnType.YEAR: _text_encode_str,
     ColumnType.NEWDATE: _text_encode_str,
